@@ -15,7 +15,8 @@ PROPS = {
              'whitelisted and not blacklisted, basic auth ok)" for every configuration of bounded universes, also after '
              '2-3 successive configurations in one process. TLC exports every row configuration x client address x '
              'endpoint x method x credentials x request shape with its verdict; each configuration is written as TOML '
-             '(both key spellings), loaded by a fresh child process through rpc.New, and every row is sent through the '
+             '(both key spellings) and loaded through rpc.New in a child process whose rpc globals are fresh (reset hook between '
+             'configurations; a sample runs in a genuinely new process per configuration), and every row is sent through the '
              'real JSON-RPC handler, the real grpc.Server and the real Ethereum HTTP/WebSocket handler over in-memory '
              'connections with a forged remote address; the oracle is whether a registered probe handler (or the built-in '
              'Version) actually ran. The Ethereum gate is compared with the address admission observed on the other two '
@@ -29,9 +30,6 @@ PROPS = {
              '(unary interceptor only): recorded as known finding, not repaired because an existing test relies on it.',
     ),
 }
-
-KNOWN_STREAM = 'grpc server-streaming methods are not gated'
-
 
 def _regroup(rows, seed, prefix):
     """rows: behaviours [Cfg, Req] -> one behaviour per configuration, rows in a seeded order."""
